@@ -682,12 +682,12 @@ TEXT_DOCS = [
     ('join-true', "version: '2.0'\nwf:\n  tasks:\n    t0: {on-success: [t1]}\n    t1:\n      join: true\n"),
     ('join-huge', "version: '2.0'\nwf:\n  tasks:\n    t0: {on-success: [t1]}\n    t1:\n      join: 99999999999999999999999\n"),
     ('with-items-nest', "version: '2.0'\nwf:\n  tasks:\n    t1:\n      with-items: i in [[[[[[[[[[[[[[[[[[[[1]]]]]]]]]]]]]]]]]]]]\n      action: std.noop\n"),
-    ('with-items-redos', "version: '2.0'\nwf:\n  tasks:\n    t1:\n      with-items: '" + ' ' * 3000 + "i" + ' ' * 3000 + "x'\n      action: std.noop\n"),
-    ('action-redos', "version: '2.0'\nwf:\n  tasks:\n    t1:\n      action: 'std.echo " + 'a=' * 2000 + "'\n"),
-    ('action-redos2', "version: '2.0'\nwf:\n  tasks:\n    t1:\n      action: 'std.echo output=" + '"' + 'a' * 30000 + "'\n"),
-    ('action-redos3', "version: '2.0'\nwf:\n  tasks:\n    t1:\n      action: 'std.echo output=" + '[' * 3000 + "'\n"),
-    ('action-redos4', "version: '2.0'\nwf:\n  tasks:\n    t1:\n      action: 'std.echo x=<% " + '<% ' * 1500 + "'\n"),
-    ('next-redos', "version: '2.0'\nwf:\n  tasks:\n    t1:\n      on-success: 'fail msg=" + '<% ' * 2000 + "'\n"),
+    ('with-items-redos', "version: '2.0'\nwf:\n  tasks:\n    t1:\n      with-items: '" + ' ' * 300 + "i" + ' ' * 300 + "x'\n      action: std.noop\n"),
+    ('action-redos', "version: '2.0'\nwf:\n  tasks:\n    t1:\n      action: 'std.echo " + 'a=' * 300 + "'\n"),
+    ('action-redos2', "version: '2.0'\nwf:\n  tasks:\n    t1:\n      action: 'std.echo output=" + '"' + 'a' * 1500 + "'\n"),
+    ('action-redos3', "version: '2.0'\nwf:\n  tasks:\n    t1:\n      action: 'std.echo output=" + '[' * 300 + "'\n"),
+    ('action-redos4', "version: '2.0'\nwf:\n  tasks:\n    t1:\n      action: 'std.echo x=<% " + '<% ' * 200 + "'\n"),
+    ('next-redos', "version: '2.0'\nwf:\n  tasks:\n    t1:\n      on-success: 'fail msg=" + '<% ' * 200 + "'\n"),
     ('expr-many', "version: '2.0'\nwf:\n  tasks:\n    t1:\n      action: std.noop\n      publish:\n        a: '" + '<% 1 %>' * 400 + "'\n"),
     ('expr-deep-paren', "version: '2.0'\nwf:\n  tasks:\n    t1:\n      action: std.noop\n      publish:\n        a: '<% " + '(' * 400 + '1' + ')' * 400 + " %>'\n"),
     ('expr-deep-paren-big', "version: '2.0'\nwf:\n  tasks:\n    t1:\n      action: std.noop\n      publish:\n        a: '<% " + '(' * 5000 + '1' + ')' * 5000 + " %>'\n"),
@@ -844,3 +844,30 @@ def mutate_text(text, rng):
     elif op == 'colon':
         lines[i] = lines[i].replace(':', rng.choice([' :', '::', ':', '']), 1)
     return '\n'.join(lines), op
+
+
+# ------------------------------------------------------------------ scaling probes
+def _task_doc(field_line):
+    return "version: '2.0'\nwf:\n  tasks:\n    t1:\n" + field_line
+
+
+PROBE_FAMILIES = [
+    # name, n -> text whose size grows linearly with n
+    ('action-unterminated-quote', lambda n: _task_doc("      action: 'std.echo output=\"" + 'a' * n + "'\n")),
+    ('action-many-params', lambda n: _task_doc("      action: 'std.echo " + 'a=1 ' * (n // 4) + "'\n")),
+    ('action-open-brackets', lambda n: _task_doc("      action: 'std.echo output=" + '[' * n + "'\n")),
+    ('action-open-yaql', lambda n: _task_doc("      action: 'std.echo x=" + '<% ' * (n // 3) + "'\n")),
+    ('action-long-word', lambda n: _task_doc("      action: 'std." + 'e' * n + " x=1'\n")),
+    ('next-open-yaql', lambda n: _task_doc("      action: std.noop\n      on-success: 'fail msg=" + '<% ' * (n // 3) + "'\n")),
+    ('with-items-blanks', lambda n: _task_doc("      action: std.noop\n      with-items: '" + ' ' * (n // 2) + 'i' + ' ' * (n // 2) + "x'\n")),
+    ('with-items-long-list', lambda n: _task_doc("      action: std.noop\n      with-items: 'i in [" + '1,' * (n // 2) + "1]'\n")),
+    ('publish-many-expressions', lambda n: _task_doc("      action: std.noop\n      publish:\n        a: '" + '<% 1 %>' * (n // 7) + "'\n")),
+    ('publish-long-literal', lambda n: _task_doc("      action: std.noop\n      publish:\n        a: '" + 'x' * n + "'\n")),
+    ('publish-long-yaql-string', lambda n: _task_doc("      action: std.noop\n      publish:\n        a: '<% \"" + 'x' * n + "\" %>'\n")),
+    ('publish-long-jinja-string', lambda n: _task_doc("      action: std.noop\n      publish:\n        a: '{{ \"" + 'x' * n + "\" }}'\n")),
+    ('description-long', lambda n: "version: '2.0'\nwf:\n  description: '" + 'd' * n + "'\n  tasks:\n    t1: {action: std.noop}\n"),
+    ('many-tasks', lambda n: "version: '2.0'\nwf:\n  tasks:\n" + ''.join('    t%d: {action: std.noop}\n' % i for i in range(max(1, n // 28)))),
+    ('many-inputs', lambda n: "version: '2.0'\nwf:\n  input: [" + ', '.join('p%d' % i for i in range(max(1, n // 6))) + "]\n  tasks:\n    t1: {action: std.noop}\n"),
+    ('yaml-long-comment', lambda n: "version: '2.0'\n#" + 'c' * n + "\nwf:\n  tasks:\n    t1: {action: std.noop}\n"),
+    ('yaml-many-blank-lines', lambda n: "version: '2.0'\n" + '\n' * n + "wf:\n  tasks:\n    t1: {action: std.noop}\n"),
+]
